@@ -111,28 +111,7 @@ def run(tier):
         rep.fail('R07.a', 'observer|never-links', 'no path links an observation', function='parseProbe', file=fnf)
     rep.ok('R07.a', n=1)
     # de-duplication key from the dedupe loop's breaking iteration
-    loops = stats['topo.rest']['loops']
-    pl = [l for l in loops if l.startswith('parseProbe#')]
-    keyset = None
-    for l in pl:
-        for kind, trace, st in (loops[l]['iter_states'] or []):
-            if kind != 'break':
-                continue
-            pairs = set()
-            for t, r in st.eq.items():
-                for a, b in ((t, r), (r, t)):
-                    w = weak_off(a)
-                    bb = st.canon(b)
-                    if w is not None and bb[0] == 'in' and bb[1] == 'frame':
-                        pairs.add((bb[2], w))
-            keyset = pairs if keyset is None else (keyset | pairs)
-    want = set((6 + i, noff['sourceAddr'] + i) for i in range(6)) | set((24 + i, noff['realSourceAddr'] + i) for i in range(6))
-    if keyset is None:
-        rep.fail('R07.b', 'dedupe|no-early-exit', 'the observation list is not searched for an existing entry before linking', function='parseProbe', file=fnf)
-    else:
-        rep.check(keyset == want, 'R07.b', 'dedupe|key',
-                  'an existing observation is recognised by comparing (frame byte, node offset) pairs %s; expected Ethernet source and real source: %s'
-                  % (sorted(keyset ^ want)[:6], 'differs'), function='parseProbe', file=fnf, sample={'dedupe_key_pairs': sorted(keyset)})
+    dedupe_key_check(rep, stats['topo.rest']['loops'], noff, 'R07.b', fnf)
 
     # ---------------- reporter (parseQuery)
     ql = [l for l in stats['topo.query']['loops'] if l.startswith('parseQuery#')]
@@ -280,6 +259,34 @@ def run(tier):
                   'The history-level statement (multiset equality of observations and reports for every history) follows from these by induction on the list and is not itself enumerated; '
                   'the heap-shape invariant count = list length is the part not proved as a theorem.',
                   'abstract interpretation with summary list node (weak object) + inductive loop summaries; origin analysis', exhaustive=False)
+
+
+def dedupe_key_check(rep, loops, noff, rule, fnf):
+    """An observation may be discarded as a duplicate only when an existing entry has the same Ethernet source AND the
+    same real source: the (frame byte, node offset) pairs known equal when the search loop is left early."""
+    pl = [l for l in loops if l.startswith('parseProbe#')]
+    keyset = None
+    for l in pl:
+        for kind, trace, st in (loops[l]['iter_states'] or []):
+            if kind != 'break':
+                continue
+            pairs = set()
+            for t, r in st.eq.items():
+                for a, b in ((t, r), (r, t)):
+                    w = weak_off(a)
+                    bb = st.canon(b)
+                    if w is not None and bb[0] == 'in' and bb[1] == 'frame':
+                        pairs.add((bb[2], w))
+            keyset = pairs if keyset is None else (keyset | pairs)
+    want = set((6 + i, noff['sourceAddr'] + i) for i in range(6)) | set((24 + i, noff['realSourceAddr'] + i) for i in range(6))
+    if keyset is None:
+        rep.fail(rule, 'dedupe|no-early-exit', 'the observation list is not searched for an existing entry before linking', function='parseProbe', file=fnf)
+    else:
+        extra, missing = sorted(keyset - want), sorted(want - keyset)
+        rep.check(keyset == want, rule, 'dedupe|key',
+                  'an existing observation is recognised by comparing (frame byte, node offset) pairs that differ from "Ethernet source and real source": '
+                  'not compared %s, compared instead %s - a probe from another station can be discarded as a duplicate' % (missing[:6], extra[:6]),
+                  function='parseProbe', file=fnf, sample={'dedupe_key_pairs': sorted(keyset)})
 
 
 def same_b(st, a, b):
